@@ -5,7 +5,7 @@
    its renderings for the replay into the real parser (leg B). *)
 EXTENDS Syntax, Json, SequencesExt
 CONSTANTS AL, NA, WIDE, EMIT     \* max argument length, max #arguments, wide choice set?, emit cases?
-Sigma == {SP, QUOTE, BS, HASH, EQ, COLON, BANG, DOLLAR, LBRACE, 110, 97, TAB, LF, 233, 37, 125}
+Sigma == {SP, QUOTE, BS, HASH, EQ, COLON, BANG, DOLLAR, LBRACE, 110, 97, TAB, LF, 233, 37, 160}
 NmL == <<76>>   NmO == <<111, 46, 120>>   NmC == <<99, 58>>        \* "L"  "o.x"  "c:"
 VARIABLES ins
 Init == ins \in { [label |-> l, out |-> o, cmd |-> c, args |-> <<>>] : l \in {None, NmL}, o \in {None, NmO}, c \in {None, NmC} }
